@@ -1,6 +1,7 @@
 #!/bin/sh
-# builds pvrunner from the freshly extracted model.ml
+# builds pvrunner from the freshly extracted model.ml; a failed build leaves no binary behind
 set -e
 cd "$(dirname "$0")"
+rm -f pvrunner
 ocamlfind ocamlopt -O3 -w -a -o pvrunner model.mli model.ml util.ml ops.ml main.ml 2>&1 | grep -v 'options -O3 is only relevant' || true
 test -x pvrunner
